@@ -135,7 +135,7 @@ def prune_cache(max_age_s=3 * 3600):
             pass
 
 
-FLAGS_VERSION = 4       # bump when the rustc command line changes (invalidates cached verdicts)
+FLAGS_VERSION = 5       # bump when the rustc command line changes (invalidates cached verdicts)
 
 STATS = {"compiles": 0, "compile_cache_hits": 0, "runs": 0, "compile_s": 0.0}
 
